@@ -39,6 +39,9 @@ type Items = Vec<(Vec<u8>, Option<Vec<u8>>)>;
 
 #[derive(Clone, Debug, Serialize, Deserialize)]
 pub struct FaultPoint {
+    /// C11 mode: only judge the directory after the run (no dead files kept after a failed read)
+    #[serde(default)]
+    pub dircheck: bool,
     pub case: Case,
     /// index of the failed call, counted from the end of the initial open; None = fault-free run
     pub pos: Option<u64>,
@@ -363,6 +366,29 @@ fn run_point_inner(p: &FaultPoint) -> Result<FaultInfo, String> {
             _ => {}
         }
     }
+    if p.dircheck {
+        // C11: a failed read must not leave anything pinned. Only meaningful while the database is
+        // healthy (after a background error it deliberately stops deleting files).
+        ctl.disarm();
+        if let Some(d) = db.as_ref() {
+            d.verif_wait_idle(Duration::from_secs(600));
+            if d.verif_state().bad_state.is_none() {
+                d.compact_range(Some(RESERVED_LO)..Some(RESERVED_HI));
+                d.verif_wait_idle(Duration::from_secs(600));
+                if d.verif_state().num_versions > 1 {
+                    d.compact_range(None..None);
+                    d.compact_range(Some(RESERVED_LO)..Some(RESERVED_HI));
+                    d.verif_wait_idle(Duration::from_secs(600));
+                }
+                if d.verif_state().bad_state.is_none() {
+                    crate::engine::dir_exact(d, &mem).map_err(|e| format!("after a failed read and quiescence: {e}"))?;
+                }
+            }
+        }
+        run.info.fired = ctl.fired_what.lock().unwrap().clone();
+        drop(db);
+        return Ok(run.info);
+    }
     // reads after the fault: everything acknowledged must still be visible or reads must fail
     if let Some(d) = db.as_ref() {
         for k in case.universe.iter() {
@@ -490,7 +516,7 @@ pub fn worker(ctx: &WorkerCtx) -> WorkerResult {
         let counting = !*failed.borrow();
         let ch = hash_json(&case);
         // fault-free run: count and classify the calls
-        let base = FaultPoint { case: case.clone(), pos: None, sticky: false };
+        let base = FaultPoint { dircheck: false, case: case.clone(), pos: None, sticky: false };
         let info = match guarded_point(&base) {
             PointOutcome::Ok(i) => i,
             PointOutcome::Violation(v) => {
@@ -528,7 +554,7 @@ pub fn worker(ctx: &WorkerCtx) -> WorkerResult {
         }
         for pos in positions {
             for sticky in [false, true] {
-                let p = FaultPoint { case: case.clone(), pos: Some(pos), sticky };
+                let p = FaultPoint { dircheck: false, case: case.clone(), pos: Some(pos), sticky };
                 let out = guarded_point(&p);
                 let mut r = res.borrow_mut();
                 if counting {
@@ -682,7 +708,7 @@ pub fn worker_hang_only(ctx: &WorkerCtx, res: &RefCell<WorkerResult>) {
             return Ok(());
         }
         let ch = hash_json(&case);
-        let base = FaultPoint { case: case.clone(), pos: None, sticky: false };
+        let base = FaultPoint { dircheck: false, case: case.clone(), pos: None, sticky: false };
         let info = match guarded_point(&base) {
             PointOutcome::Ok(i) => i,
             _ => return Ok(()),
@@ -696,7 +722,7 @@ pub fn worker_hang_only(ctx: &WorkerCtx, res: &RefCell<WorkerResult>) {
         while pos < n {
             // prefer write-side calls: they drive the sticky error state
             let sticky = mix(ch, pos as u64) & 1 == 1;
-            let p = FaultPoint { case: case.clone(), pos: Some(pos as u64), sticky };
+            let p = FaultPoint { dircheck: false, case: case.clone(), pos: Some(pos as u64), sticky };
             let bg0 = crate::guard::bg_panics();
             let out = guarded_point(&p);
             let mut r = res.borrow_mut();
@@ -742,4 +768,82 @@ pub fn replay_termination(v: &Value) -> Result<(), String> {
         }
     }
     Ok(())
+}
+
+/// C11 part 3: transient failures of read-side calls (open-for-read, read, read_from, len, size)
+/// must not leave a version pinned: after the run, a flush and quiescence the directory is exact.
+pub fn worker_dircheck(ctx: &WorkerCtx, res: &RefCell<WorkerResult>) {
+    if !res.borrow().violations.is_empty() {
+        return;
+    }
+    let workloads = match ctx.tier {
+        Tier::Quick => 32u64,
+        Tier::Thorough => 600,
+    };
+    let per = match ctx.tier {
+        Tier::Quick => 80usize,
+        Tier::Thorough => 600,
+    };
+    let found: RefCell<Option<(FaultPoint, String)>> = RefCell::new(None);
+    let mut params = workload_params();
+    params.w.get = 30;
+    params.w.getall = 6;
+    params.w.fill = 8;
+    let mut runner = TestRunner::new(Config {
+        cases: ctx.share(workloads).max(1) as u32,
+        rng_seed: RngSeed::Fixed(ctx.derived_seed(113)),
+        failure_persistence: None,
+        max_shrink_iters: 0,
+        ..Config::default()
+    });
+    let _ = runner.run(&case_strategy(&params), |case| {
+        if found.borrow().is_some() {
+            return Ok(());
+        }
+        let ch = hash_json(&case);
+        let base = FaultPoint { dircheck: false, case: case.clone(), pos: None, sticky: false };
+        let info = match guarded_point(&base) {
+            PointOutcome::Ok(i) => i,
+            _ => return Ok(()),
+        };
+        let reads: Vec<usize> = info
+            .kinds
+            .iter()
+            .enumerate()
+            .filter(|(_, k)| matches!(**k, "read" | "read_from" | "open" | "len" | "size"))
+            .map(|(i, _)| i)
+            .collect();
+        if reads.is_empty() {
+            return Ok(());
+        }
+        let step = (reads.len() / per).max(1);
+        let mut i = (mix(ch, 3) % step as u64) as usize;
+        while i < reads.len() {
+            let p = FaultPoint { dircheck: true, case: case.clone(), pos: Some(reads[i] as u64), sticky: false };
+            let out = guarded_point(&p);
+            let mut r = res.borrow_mut();
+            r.evaluations += 1;
+            match out {
+                PointOutcome::Violation(v) if v.what.contains("directory differs") => {
+                    *found.borrow_mut() = Some((p, v.what));
+                    return Ok(());
+                }
+                PointOutcome::Ok(info) => {
+                    if info.fired.is_some() {
+                        r.bump("read_side_fault_then_directory_exact");
+                        r.nontrivial_hashes.push(mix(ch, 0xC11 + reads[i] as u64));
+                    }
+                }
+                _ => {}
+            }
+            i += step;
+        }
+        Ok(())
+    });
+    if let Some((p, e)) = found.into_inner() {
+        let mut body = replay_body(&p, &e);
+        body["property"] = json!("C11");
+        let path = write_replay("C11", ctx.seed, ctx.worker, 113, &body);
+        res.borrow_mut().violations.push(ViolationRec { replay: path, message: e });
+    }
 }
